@@ -142,6 +142,7 @@ func runC19(c *kit.Ctx) {
 	// (with its two goroutines) after Close
 	clientDownOnlyWhenDead(c, p.Func("", "client", "handleResultError"), est)
 	cacheEntriesLeaveOnlyWhenDead(c)
+	deadConnectionIsTheFailedOne(c)
 
 	// ---- R3 ---------------------------------------------------------------
 	c.StartRule("R3", "waits and establishers observe the closed signal", 6)
@@ -394,6 +395,7 @@ func runC19(c *kit.Ctx) {
 
 	// ---- R5 ---------------------------------------------------------------
 	c.StartRule("R5", "calls are queued only after the region was resolved (closed signal seen first)", 3)
+	lookupFailuresReachTheirSlots(c)
 	{
 		for _, fn := range p.Funcs {
 			if enclosingNamed(fn).Pkg == nil || enclosingNamed(fn).Pkg.Pkg.Path() != kit.Module {
